@@ -58,7 +58,11 @@ struct hwloc_synthetic_backend_data_s {
   unsigned long numa_attached_nr;
   struct hwloc_synthetic_indexes_s numa_attached_indexes;
 
+#if defined(HWLOC_VERIF) && defined(HWLOC_VERIF_SYNTHETIC_MAX_DEPTH)
+#define HWLOC_SYNTHETIC_MAX_DEPTH HWLOC_VERIF_SYNTHETIC_MAX_DEPTH /* verification builds may scale the level table down */
+#else
 #define HWLOC_SYNTHETIC_MAX_DEPTH 128
+#endif
   struct hwloc_synthetic_level_data_s level[HWLOC_SYNTHETIC_MAX_DEPTH];
 };
 
